@@ -175,11 +175,39 @@ fn one_case(ctx: &Ctx, dir: &std::path::Path, case: u64, seed: u64, rep: &mut Re
     // generator reproduces the same project (for C04: with other pool depths)
     if world.proj.steps.iter().any(|s| s.effect == Effect::Generator) {
         for _ in 0..4 {
-            let mut np = world.proj.clone();
+            let mut np = world.next_gens.last().cloned().unwrap_or_else(|| world.proj.clone());
             if c04_regen {
                 for p in np.pools.iter_mut() {
                     p.1 = rng.below(4);
                 }
+            }
+            if matches!(prop, "C18" | "C19") && rng.chance(1, 2) {
+                // the regenerated manifest gains a statement in front: every internal number shifts
+                let n = np.steps.len();
+                let src = np.sources[0].clone();
+                let id = format!("x{}", n);
+                np.steps.insert(
+                    0,
+                    Step {
+                        id: id.clone(),
+                        outs: vec![format!("extra_{}", id)],
+                        iouts: vec![],
+                        ins: vec![src],
+                        imps: vec![],
+                        oos: vec![],
+                        vals: vec![],
+                        phony: false,
+                        ver: 1,
+                        pool: None,
+                        rsp: None,
+                        depfile: None,
+                        msvc: false,
+                        desc: None,
+                        effect: Effect::Write,
+                        extra_reads: vec![],
+                        discovers: false,
+                    },
+                );
             }
             world.next_gens.push(np);
         }
